@@ -43,7 +43,9 @@ fn king_attacked(fen: &str, white_king: bool) -> bool {
     true
 }
 
-const TRICKY: [&str; 12] = [
+const TRICKY: [&str; 16] = [
+    "4k3/8/8/6Pp/8/8/8/4K3 w - h6 0 2", "4k3/8/8/8/6pP/8/8/4K3 b - h3 0 1",    // e.p. target on the h-file, read from the FEN
+    "4k3/8/8/pP6/8/8/8/4K3 w - a6 0 2", "4k3/8/8/8/Pp6/8/8/4K3 b - a3 0 1",      // ... and on the a-file
     "8/8/8/KPp4r/8/8/8/4k3 w - c6 0 1",            // en passant removes both pawns from the king's rank
     "4K3/8/8/8/kpP4R/8/8/8 b - c3 0 1",
     "7b/8/8/3Pp3/8/8/8/K6k w - e6 0 1",            // the pawn captured en passant is the only blocker on a diagonal
@@ -142,8 +144,11 @@ fn oracle_moves(fen: &str, legal_only: bool) -> Vec<String> {
     out
 }
 
-fn check_position(board: &mut Bitboard, bad: &mut u32) {
-    let fen = snap(board);
+fn check_position(board: &mut Bitboard, bad: &mut u32) { check_position_as(board, None, bad) }
+
+/// `given`: the FEN text the board was read from — the reference works from that text, not from what the board renders back
+fn check_position_as(board: &mut Bitboard, given: Option<&str>, bad: &mut u32) {
+    let fen = match given { Some(f) => f.to_string(), None => snap(board) };
     let expect = oracle_moves(&fen, true);
     let mut got: Vec<String> = board.generate_legal_moves().iter().map(|m| m.to_uci_string()).collect();
     got.sort();
@@ -191,13 +196,13 @@ fn witness_c01_legal_moves_exact() {
     let mut bad = 0;
     for fen in TRICKY {
         let mut board = Bitboard::from_fen_string_unchecked(fen);
-        check_position(&mut board, &mut bad);
+        check_position_as(&mut board, Some(fen), &mut bad);
     }
     for fen in ["r3k2r/8/8/8/8/8/8/R3K2R w KQkq - 0 1", "r3k2r/8/8/8/8/8/8/R3K2R b KQkq - 0 1", "r3k2r/8/8/8/8/8/8/R3K2R w Kq - 0 1",
                 "r3k2r/p6p/8/8/8/8/P6P/RN2K1NR w KQkq - 0 1", "rn2k1nr/8/8/8/8/8/8/R3K2R b KQkq - 0 1", "r3k2r/8/8/4r3/8/8/8/R3K2R w KQkq - 0 1",
                 "r3k2r/8/8/8/8/8/3p4/R3K2R w KQkq - 0 1", "4k3/P6P/8/8/8/8/p6p/4K3 w - - 0 1", "1n2k1n1/P6P/8/8/8/8/p6p/1N2K1N1 b - - 0 1"] {
         let mut board = Bitboard::from_fen_string_unchecked(fen);
-        check_position(&mut board, &mut bad);
+        check_position_as(&mut board, Some(fen), &mut bad);
     }
     // deterministic pseudo-random games from the start position and two middlegames
     let mut x: u64 = 0x9E3779B97F4A7C15;
